@@ -1,7 +1,39 @@
 """C08 - Poll: one poll at a time, exact descriptor set, first yield wins, prompt polls."""
 import random
 
+from .. import tlc
+
 TRACE = "PollObsTrace"
+NAMES = {"sub": "sub%d", "env": "env%d", "can": "can%d", "notif": "notif0", "loop": "PollExecutor-q", "obs": "main"}
+
+
+def converter(cancel_fn, poll_raise):
+    def convert(beh):
+        st0 = beh[0][1]
+        S, Y, K = tlc.nums(st0["cfgS"]), tlc.nums(st0["cfgY"]), tlc.nums(st0["cfgK"])
+        F = tlc.bools(st0["cfgFail"])
+        jobs = [{"S": S[i], "D": 200, "fail": F[i], "y": Y[i], "K": K[i] if K[i] < 90000 else None, "C": True}
+                for i in range(len(S))]
+        p = {"flavour": "manual", "jobs": jobs, "cancel_fn": cancel_fn, "poll_raise": poll_raise, "poll_dur": 0,
+             "notify": [260], "interval": 500, "horizon": 1800, "visible": True}
+        return ({"scen": "poll", "params": p, "strat": ["replay", tlc.schedule_of(beh, NAMES), ["sticky"], True],
+                 "gran": "sync", "facts": {"replay": True}}, tlc.hist(beh[-1][1]["hist"]))
+    return convert
+
+
+KEEP = ("SubmitCall", "SubmitRet", "InvokeEnd", "DelegateDone", "PollCall", "Yield", "YieldRet", "PollRet", "NotifyCall",
+        "CancelCall", "CancelRet", "CancelFnCall", "CancelFnRet", "End")
+
+
+def project(trace):
+    out = []
+    for e in trace:
+        if e["ev"] in KEEP:
+            out.append([e["ev"], e["f"], e["t"]])
+        elif e["ev"] == "Observed" and e["s"] in ("FINISHED", "CANCELLED_AND_NOTIFIED"):
+            out.append([e["ev"], e["f"], e["t"]])
+    return out
+
 
 
 def gen(rng, i):
@@ -23,6 +55,9 @@ def run(ck):
     rng = random.Random(ck.seed)
     ck.mc("Poll", "Poll.mc.cfg", timeout=3000)
     ck.mc("Poll", "Poll.mc2.cfg", timeout=3000)
+    for cfg, cf, pr in (("Poll.sim.cfg", "false", 0), ("Poll.sim2.cfg", "true", 2)):
+        behs = tlc.simulate_behaviours("Poll", cfg, 30 if quick else 300, 150, ck.seed + 3, timeout=900)
+        ck.replay_behaviours(behs, converter(cf, pr), project, TRACE)
     tasks = []
     for i in range(700 if quick else 14000):
         p = gen(rng, i)
